@@ -1619,6 +1619,114 @@ def lower_callable_objects(trees, report, unknown=None):
     return changed
 
 
+def lower_static_classes(trees, report, unknown=None):
+    """A new class that only groups functions (every method a `@staticmethod`) and class-level constants / tables, never
+    instantiated, and only ever used as `<Class>.name`, is a namespace: its methods are module-level functions and its
+    class-level assignments module-level assignments (in the same order, after the functions), `<Class>.name` is `name`
+    (`<Class>__name` when the module already has that name)."""
+    inv = load_inventory()
+    if inv is None:
+        return set()
+    changed = set()
+    for rel, tree in list(trees.items()):
+        if rel not in inv.get("globals", {}):
+            continue
+        known = set(inv.get("globals", {}).get(rel, ()))
+        for K in [s for s in tree.body if isinstance(s, ast.ClassDef) and s.name not in known]:
+            if K.decorator_list or K.keywords or any(not (isinstance(b, ast.Name) and b.id == "object") for b in K.bases):
+                continue
+            members, ok = [], True
+            for st in K.body:
+                if isinstance(st, ast.Expr) and isinstance(st.value, ast.Constant):
+                    continue
+                if isinstance(st, ast.Pass):
+                    continue
+                if isinstance(st, ast.FunctionDef) and [ast.unparse(d) for d in st.decorator_list] == ["staticmethod"] and not st.name.startswith("__"):
+                    members.append(st)
+                    continue
+                if isinstance(st, ast.Assign) and len(st.targets) == 1 and isinstance(st.targets[0], ast.Name) and not st.targets[0].id.startswith("__"):
+                    members.append(st)
+                    continue
+                if isinstance(st, ast.AnnAssign) and isinstance(st.target, ast.Name) and st.value is not None:
+                    members.append(st)
+                    continue
+                ok = False
+            if not ok or not any(isinstance(m, ast.FunctionDef) for m in members):
+                continue
+            names = [m.name if isinstance(m, ast.FunctionDef) else (m.targets[0].id if isinstance(m, ast.Assign) else m.target.id) for m in members]
+            if len(set(names)) != len(names):
+                continue
+            # every use of the class name: <K>.member loads
+            good = True
+            for r2, t2 in trees.items():
+                pm = {}
+                for n in ast.walk(t2):
+                    for c in ast.iter_child_nodes(n):
+                        pm[id(c)] = n
+                for n in ast.walk(t2):
+                    if isinstance(n, ast.Name) and n.id == K.name:
+                        par = pm.get(id(n))
+                        if not (isinstance(par, ast.Attribute) and par.value is n and par.attr in names and isinstance(par.ctx, ast.Load)):
+                            good = False
+                    elif isinstance(n, ast.Attribute) and n.attr == K.name:
+                        good = False
+            if not good:
+                continue
+            from .refnorm import module_globals
+
+            taken = (module_globals(tree) - {K.name})
+            new_name = {nm: (nm if nm not in taken else f"{K.name}__{nm}") for nm in names}
+            if any(v in taken for v in new_name.values()):
+                continue
+
+            class R(ast.NodeTransformer):
+                def visit_Attribute(self, n):
+                    self.generic_visit(n)
+                    if isinstance(n.value, ast.Name) and n.value.id == K.name and n.attr in new_name:
+                        return ast.copy_location(ast.Name(id=new_name[n.attr], ctx=ast.Load()), n)
+                    return n
+
+            hoisted = []
+            for m in members:
+                if isinstance(m, ast.FunctionDef):
+                    m.decorator_list = []
+                    m.name = new_name[m.name]
+                elif isinstance(m, ast.Assign):
+                    m.targets[0].id = new_name[m.targets[0].id]
+                else:
+                    m.target.id = new_name[m.target.id]
+                hoisted.append(m)
+            # inside the class body, members refer to each other by bare name (class scope) only in class-level
+            # assignments: rename those too
+            class RB(ast.NodeTransformer):
+                def visit_Name(self, n):
+                    if isinstance(n.ctx, ast.Load) and n.id in new_name and new_name[n.id] != n.id:
+                        return ast.copy_location(ast.Name(id=new_name[n.id], ctx=ast.Load()), n)
+                    return n
+
+            for m in hoisted:
+                if not isinstance(m, ast.FunctionDef):
+                    m.value = RB().visit(m.value)
+            idx = tree.body.index(K)
+            tree.body[idx:idx + 1] = hoisted
+            for r2, t2 in trees.items():
+                R().visit(t2)
+                for n in ast.walk(t2):
+                    if isinstance(n, ast.ImportFrom) and any(a.name == K.name for a in n.names):
+                        used = sorted({x.id for x in ast.walk(t2) if isinstance(x, ast.Name) and x.id in new_name.values()})
+                        n.names = [a for a in n.names if a.name != K.name] + [ast.alias(name=u, asname=None) for u in used if not any(a.name == u for a in n.names)]
+                        if not n.names:
+                            n.names = [ast.alias(name=new_name[names[0]], asname=None)]
+                ast.fix_missing_locations(t2)
+                changed.add(r2)
+            if isinstance(unknown, set):
+                for m in hoisted:
+                    if isinstance(m, ast.FunctionDef) and m.name not in known:
+                        unknown.add((rel, m.name))
+            report.append(("static-class", f"{rel}:{K.name}"))
+    return changed
+
+
 def undo(trees, unknown, report):
     """all three steps; returns the relpaths whose tree changed"""
     from .canon import canonicalise
@@ -1632,6 +1740,10 @@ def undo(trees, unknown, report):
     for rel in e:
         canonicalise(trees[rel])
     changed |= e
+    e3 = lower_static_classes(trees, report, unknown if isinstance(unknown, set) else None)
+    for rel in e3:
+        canonicalise(trees[rel])
+    changed |= e3
     e2 = lower_callable_objects(trees, report, unknown if isinstance(unknown, set) else None)
     for rel in e2:
         canonicalise(trees[rel])
